@@ -13,9 +13,12 @@ Open Scope nat_scope.
 (** no given peer answers a height of the range with a block of another height *)
 Definition no_wrong_height (c : config) : bool := forallb (no_wrong_at c) (heights c).
 
-Definition delivery_guard (c : config) : bool := no_wrong_height c && few_peers c.
+(** [no_stall c] (ProofsMulti): no given peer stays silent for a height of the range *)
+Definition delivery_guard (c : config) : bool := no_wrong_height c && no_stall c && few_peers c.
 
 Definition one_height (c : config) : bool := length (heights c) =? 1.
+
+Definition reask_guard (c : config) : bool := one_height c && no_stall c.
 
 (** * Full-strength statements *)
 
@@ -31,6 +34,12 @@ Definition phase_one_delivers_full : Prop :=
 
 Definition failed_peer_not_reasked_full : Prop :=
   forall c sched, spec_no_reask_phase_one c (rev (s_log (phase_one c sched))) = true.
+
+Definition no_deadlock_full : Prop :=
+  forall c sched, all_done (phase_one c sched) = false ->
+                  exists e s', step c (init_job c) (phase_one c sched) e = Some s'.
+
+Definition second_phase_terminates_full : Prop := forall c h, all_done (recheck c h) = true.
 
 Definition not_reasked_in_task_full : Prop :=
   forall c sched order, complete_run c sched order -> spec_no_reask_task c (task_log c sched order) = true.
@@ -58,7 +67,8 @@ Lemma delivers_partial c sched order :
   delivery_guard c = true -> complete_run c sched order ->
   spec_delivers c (task_log c sched order) = true.
 Proof.
-  intros Hg [Hd Hperm]. unfold delivery_guard in Hg. apply andb_true_iff in Hg. destruct Hg as [Hnw Hfew].
+  intros Hg [Hd Hperm]. unfold delivery_guard in Hg. apply andb_true_iff in Hg. destruct Hg as [Hg Hfew].
+  apply andb_true_iff in Hg. destruct Hg as [Hnw Hns].
   unfold spec_delivers. apply forallb_forall. intros h Hh.
   destruct (servable c h) eqn:Hs; [simpl|reflexivity].
   pose proof (phase_one_inv c sched) as HI.
@@ -69,7 +79,7 @@ Proof.
   - (* delivered in phase one *)
     assert (Hho : handed_over (g_pc (nth g (s_gs (phase_one c sched)) dummy_g)) = true)
       by (rewrite Hpc; reflexivity).
-    destruct (inv_ok _ _ HI g Hho) as [p [a [Hp [Ha Hin]]]]. rewrite Hgh in *.
+    destruct (inv_ok _ _ _ HI g Hho) as [p [a [Hp [Ha Hin]]]]. rewrite Hgh in *.
     assert (a = None).
     { unfold no_wrong_at in Hnwh. pose proof (proj1 (forallb_forall _ _) Hnwh p Hp) as Hw. cbv beta in Hw.
       destruct (c_beh c p h); simpl in Ha; try discriminate; inversion Ha; reflexivity. }
@@ -78,7 +88,8 @@ Proof.
   - (* failed in phase one: downloaded again in phase two *)
     pose proof (failed_in _ g Hg Hpc) as Hf. rewrite Hgh in Hf.
     apply (Permutation_in _ (Permutation_sym Hperm)) in Hf.
-    destruct (recheck_delivers c h Hs Hnwh Hfew) as [_ [p Hp]].
+    assert (Hnsh : no_stall_at c h = true) by (apply (proj1 (forallb_forall _ _) Hns h Hh)).
+    destruct (recheck_delivers c h Hnsh Hs Hnwh Hfew) as [_ [p Hp]].
     apply (delivered_in _ h p). apply (in_task_log_two c sched order h _ Hf Hp).
 Qed.
 
@@ -86,18 +97,15 @@ Qed.
 
 Lemma recheck_log_ok c h o : In h (heights c) -> In o (recheck_log c h) -> log_ok c o.
 Proof.
-  intros Hh Ho. pose proof (recheck_events c h o Ho) as H.
-  destruct o as [l|h' p|bh p]; cbn.
-  - exact H.
-  - destruct H as [-> [Hp He]]. auto.
-  - destruct H as [Hp [He Ha]]. exists h. auto.
+  intros Hh Ho. unfold recheck_log in Ho. apply in_rev in Ho.
+  apply (inv_log _ _ _ (recheck_inv c h Hh) o Ho).
 Qed.
 
 Lemma task_log_ok c sched order o :
   (forall h, In h order -> In h (heights c)) -> In o (task_log c sched order) -> log_ok c o.
 Proof.
   intros Hord Ho. unfold task_log in Ho. apply in_app_or in Ho. destruct Ho as [Ho|Ho].
-  - apply (inv_log _ _ (phase_one_inv c sched)). apply in_rev. exact Ho.
+  - apply (inv_log _ _ _ (phase_one_inv c sched)). apply in_rev. exact Ho.
   - unfold phase_two_log in Ho. apply in_flat_map in Ho. destruct Ho as [h [Hh Ho]].
     apply (recheck_log_ok c h o (Hord h Hh) Ho).
 Qed.
@@ -105,7 +113,7 @@ Qed.
 Lemma failed_heights_in c sched h :
   In h (failed_heights (phase_one c sched)) -> In h (heights c).
 Proof.
-  intro H. rewrite <- (inv_hs _ _ (phase_one_inv c sched)).
+  intro H. rewrite <- (inv_hs _ _ _ (phase_one_inv c sched)).
   unfold failed_heights in H. apply in_map_iff in H. destruct H as [G [<- HG]].
   apply in_map. apply filter_In in HG. exact (proj1 HG).
 Qed.
@@ -135,42 +143,58 @@ Proof.
   destruct (heights c) as [|h [|h2 l]]; simpl in H; try discriminate. exists h. reflexivity.
 Qed.
 
-Lemma phase_one_part_single c h :
-  phase_one_part false (recheck_log c h) = recheck_log c h.
+Lemma solo0_no_init c h o :
+  In o (fst (solo0 c h)) -> match o with OInit _ => False | _ => True end.
 Proof.
-  rewrite recheck_log_solo.
-  assert (Hno : forall l seen, (forall o, In o l -> match o with OInit _ => False | _ => True end) ->
-                               phase_one_part seen l = l).
-  { induction l as [|o l IH]; intros seen H; [reflexivity|].
-    destruct o as [x|h' p|bh p]; simpl.
-    - exfalso. apply (H (OInit x)). left. reflexivity.
-    - rewrite IH; auto. intros o Ho. apply H. right. exact Ho.
-    - rewrite IH; auto. intros o Ho. apply H. right. exact Ho. }
-  assert (Hs : forall o, In o (fst (solo0 c h)) -> match o with OInit _ => False | _ => True end).
-  { unfold solo0. intros o Ho. pose proof (solo_deliveries _ _ _ _ _ _ _ o Ho) as H.
-    destruct o; auto. }
-  unfold init_log. destruct (init_job c); simpl; rewrite (Hno _ _ Hs); reflexivity.
+  unfold solo0. intro Ho.
+  pose proof (solo_deliveries c (init_job c) (ntasks c) h 52 (view0 c) 0 o Ho) as H.
+  destruct o; auto.
+Qed.
+
+Lemma phase_one_part_no_init : forall l seen,
+  (forall o, In o l -> match o with OInit _ => False | _ => True end) -> phase_one_part seen l = l.
+Proof.
+  induction l as [|o l IH]; intros seen H; [reflexivity|].
+  destruct o as [x|h' p|bh p]; simpl.
+  - exfalso. apply (H (OInit x)). left. reflexivity.
+  - rewrite IH; auto. intros o Ho. apply H. right. exact Ho.
+  - rewrite IH; auto. intros o Ho. apply H. right. exact Ho.
+Qed.
+
+Lemma phase_one_part_init_log (L : list obs) c :
+  (forall o, In o L -> match o with OInit _ => False | _ => True end) ->
+  phase_one_part false (init_log c ++ L) = init_log c ++ L.
+Proof.
+  intro Hs. unfold init_log. destruct (init_job c); cbn [app phase_one_part];
+    rewrite (phase_one_part_no_init _ _ Hs); reflexivity.
+Qed.
+
+Lemma phase_one_part_single c h :
+  no_stall_at c h = true -> phase_one_part false (recheck_log c h) = recheck_log c h.
+Proof.
+  intro Hns. rewrite (recheck_log_solo c h Hns). apply phase_one_part_init_log. apply solo0_no_init.
 Qed.
 
 Lemma single_goroutine_correct c h sched :
   heights c = [h] -> all_done (phase_one c sched) = true ->
   let tr := rev (s_log (phase_one c sched)) in
-  (distinct_peers c = true -> no_reask_from c [] tr = true)
-  /\ (no_wrong_at c h = true -> few_peers c = true -> memZ h (delivered tr) = servable c h)
+  (no_stall_at c h = true -> distinct_peers c = true -> no_reask_from c [] tr = true)
+  /\ (no_stall_at c h = true -> no_wrong_at c h = true -> few_peers c = true ->
+      memZ h (delivered tr) = servable c h)
   /\ (forall o, In o tr -> log_ok c o).
 Proof.
   intros Hh Hd. cbn zeta. rewrite (single_height_phase_one c h sched Hh Hd).
   change (rev (s_log (recheck c h))) with (recheck_log c h).
   assert (Hin : In h (heights c)) by (rewrite Hh; left; reflexivity).
   split; [apply recheck_no_reask|]. split.
-  - intros Hnw Hfew. destruct (servable c h) eqn:Hs.
-    + destruct (recheck_delivers c h Hs Hnw Hfew) as [_ [p Hp]]. apply (delivered_in _ h p Hp).
+  - intros Hns Hnw Hfew. destruct (servable c h) eqn:Hs.
+    + destruct (recheck_delivers c h Hns Hs Hnw Hfew) as [_ [p Hp]]. apply (delivered_in _ h p Hp).
     + destruct (memZ h (delivered (recheck_log c h))) eqn:Hm; [|reflexivity]. exfalso.
       unfold memZ in Hm. apply existsb_exists in Hm. destruct Hm as [bh [Hbh Heq]].
       apply Z.eqb_eq in Heq. subst bh. unfold delivered in Hbh. apply in_flat_map in Hbh.
       destruct Hbh as [o [Ho Hbh]]. destruct o as [l|h' p|bh p]; try contradiction.
-      destruct Hbh as [<-|[]].
-      pose proof (recheck_events c h _ Ho) as [Hp [He [a [Ha Hbh]]]].
+      destruct Hbh as [->|[]].
+      pose proof (recheck_events c h _ Hns Ho) as [Hp [He [a [Ha Hbh]]]].
       unfold no_wrong_at in Hnw. pose proof (proj1 (forallb_forall _ _) Hnw p Hp) as Hw. cbv beta in Hw.
       assert (Hsv : servable c h = true).
       { unfold servable. apply existsb_exists. exists p. split; [exact Hp|].
@@ -180,15 +204,32 @@ Proof.
 Qed.
 
 Lemma not_reasked_partial c sched :
-  one_height c = true -> all_done (phase_one c sched) = true ->
+  reask_guard c = true -> all_done (phase_one c sched) = true ->
   spec_no_reask_phase_one c (rev (s_log (phase_one c sched))) = true.
 Proof.
-  intros H1 Hd. destruct (one_height_inv c H1) as [h Hh].
+  intros Hg Hd. unfold reask_guard in Hg. apply andb_true_iff in Hg. destruct Hg as [H1 Hns].
+  destruct (one_height_inv c H1) as [h Hh].
+  assert (Hnsh : no_stall_at c h = true).
+  { apply (proj1 (forallb_forall _ _) Hns h). rewrite Hh. left. reflexivity. }
   unfold spec_no_reask_phase_one. destruct (distinct_peers c) eqn:Hdp; [simpl|reflexivity].
   rewrite (single_height_phase_one c h sched Hh Hd).
   change (rev (s_log (recheck c h))) with (recheck_log c h).
-  rewrite phase_one_part_single. apply recheck_no_reask. exact Hdp.
+  rewrite (phase_one_part_single c h Hnsh). apply recheck_no_reask; assumption.
 Qed.
+
+(** * Progress *)
+
+Lemma no_deadlock_partial c sched :
+  no_stall c = true -> all_done (phase_one c sched) = false ->
+  exists e s', step c (init_job c) (phase_one c sched) e = Some s'.
+Proof.
+  intros Hns Hd. apply progress; [|exact Hd].
+  apply (inv_no_waiting c (heights c) _ (phase_one_inv c sched) Hns).
+Qed.
+
+Lemma second_phase_terminates_partial c h :
+  no_stall_at c h = true -> all_done (recheck c h) = true.
+Proof. apply recheck_done. Qed.
 
 (** * Witnesses *)
 
@@ -209,7 +250,12 @@ Definition sched_reask : list event :=
    Result 1; Release 1; Remove 1; Pick 1].
 
 Lemma not_reasked_refuted : ~ failed_peer_not_reasked_full.
-Proof. intro H. specialize (H cfg_reask sched_reask). vm_compute in H. discriminate. Qed.
+Proof.
+  intro H. specialize (H cfg_reask sched_reask).
+  assert (E : spec_no_reask_phase_one cfg_reask (rev (s_log (phase_one cfg_reask sched_reask))) = false)
+    by (vm_compute; reflexivity).
+  rewrite E in H. clear E. discriminate H.
+Qed.
 
 (** P0 (height 1) refuses height 1, P1 (height 2) serves height 1 and refuses
     height 2, P2 is too low for everything.  Goroutine 1 removes P1 (index 1)
@@ -227,7 +273,10 @@ Lemma phase_one_delivers_refuted : ~ phase_one_delivers_full.
 Proof.
   intro H. specialize (H cfg_lost sched_lost).
   assert (Hd : all_done (phase_one cfg_lost sched_lost) = true) by (vm_compute; reflexivity).
-  specialize (H Hd). vm_compute in H. discriminate.
+  specialize (H Hd).
+  assert (E : spec_delivers cfg_lost (rev (s_log (phase_one cfg_lost sched_lost))) = false)
+    by (vm_compute; reflexivity).
+  rewrite E in H. clear E. discriminate H.
 Qed.
 
 (** P0 answers the request for height 1 with a block of height 2; the healthy
@@ -239,8 +288,12 @@ Lemma delivers_refuted : ~ delivers_if_servable_full.
 Proof.
   intro H. specialize (H cfg_wrong sched_wrong []).
   assert (Hc : complete_run cfg_wrong sched_wrong []).
-  { split; [vm_compute; reflexivity|]. vm_compute. apply perm_nil. }
-  specialize (H Hc). vm_compute in H. discriminate.
+  { split; [vm_compute; reflexivity|].
+    assert (E : failed_heights (phase_one cfg_wrong sched_wrong) = []) by (vm_compute; reflexivity).
+    rewrite E. apply perm_nil. }
+  specialize (H Hc).
+  assert (E : spec_delivers cfg_wrong (task_log cfg_wrong sched_wrong []) = false) by (vm_compute; reflexivity).
+  rewrite E in H. clear E. discriminate H.
 Qed.
 
 (** one refusing peer: asked in phase one, and again by checkTask *)
@@ -251,8 +304,35 @@ Lemma not_reasked_in_task_refuted : ~ not_reasked_in_task_full.
 Proof.
   intro H. specialize (H cfg_again sched_again [1%Z]).
   assert (Hc : complete_run cfg_again sched_again [1%Z]).
-  { split; [vm_compute; reflexivity|]. vm_compute. apply Permutation_refl. }
-  specialize (H Hc). vm_compute in H. discriminate.
+  { split; [vm_compute; reflexivity|].
+    assert (E : failed_heights (phase_one cfg_again sched_again) = [1%Z]) by (vm_compute; reflexivity).
+    rewrite E. apply Permutation_refl. }
+  specialize (H Hc).
+  assert (E : spec_no_reask_task cfg_again (task_log cfg_again sched_again [1%Z]) = false)
+    by (vm_compute; reflexivity).
+  rewrite E in H. clear E. discriminate H.
+Qed.
+
+(** P0 accepts the stream and never answers: the goroutine waits in ReadStream
+    for ever (the 10 s context only covers NewStream), the healthy P1 is never
+    asked and the task never returns. *)
+Definition cfg_stall : config := tcfg [PPeer 0; PPeer 1] [5; 5]%Z [[RStall]; [ROk]] 1 1.
+Definition sched_stall : list event := [Sort 0; Pick 0].
+
+Lemma no_deadlock_refuted : ~ no_deadlock_full.
+Proof.
+  intro H. specialize (H cfg_stall sched_stall).
+  assert (Hd : all_done (phase_one cfg_stall sched_stall) = false) by (vm_compute; reflexivity).
+  destruct (H Hd) as [e [s' Hs]]. clear H Hd.
+  remember (phase_one cfg_stall sched_stall) as s eqn:E. vm_compute in E. subst s.
+  destruct e as [g|g|g|g|g|g]; destruct g as [|g]; vm_compute in Hs; discriminate Hs.
+Qed.
+
+Lemma second_phase_terminates_refuted : ~ second_phase_terminates_full.
+Proof.
+  intro H. specialize (H cfg_stall 1%Z).
+  assert (E : all_done (recheck cfg_stall 1%Z) = false) by (vm_compute; reflexivity).
+  rewrite E in H. discriminate H.
 Qed.
 
 (** * Non-vacuity *)
@@ -262,7 +342,11 @@ Example guard_on_lost : delivery_guard cfg_lost = true.
 Proof. vm_compute. reflexivity. Qed.
 
 Example lost_is_complete : complete_run cfg_lost sched_lost [1; 2]%Z.
-Proof. split; [vm_compute; reflexivity|]. vm_compute. apply Permutation_refl. Qed.
+Proof.
+  split; [vm_compute; reflexivity|].
+  assert (E : failed_heights (phase_one cfg_lost sched_lost) = [1; 2]%Z) by (vm_compute; reflexivity).
+  rewrite E. apply Permutation_refl.
+Qed.
 
 (** ... and phase two is what saves height 1 there *)
 Example lost_recovered :
@@ -271,14 +355,14 @@ Example lost_recovered :
 Proof. split; vm_compute; reflexivity. Qed.
 
 Definition cfg_single : config :=
-  tcfg [PPeer 0; PPeer 1; PPeer 2] [9; 0; 9]%Z [[RStall]; [ROk]; [ROk]] 3 3.
+  tcfg [PPeer 0; PPeer 1; PPeer 2] [9; 0; 9]%Z [[RMalformed]; [ROk]; [ROk]] 3 3.
 Definition sched_single : list event :=
   [Sort 0; Pick 0; Result 0; Release 0; Remove 0; Pick 0; Result 0; Release 0].
 
 Example single_hypotheses :
   heights cfg_single = [3%Z] /\ all_done (phase_one cfg_single sched_single) = true
   /\ distinct_peers cfg_single = true /\ no_wrong_at cfg_single 3 = true /\ few_peers cfg_single = true
-  /\ servable cfg_single 3 = true /\ one_height cfg_single = true
+  /\ servable cfg_single 3 = true /\ reask_guard cfg_single = true /\ no_stall_at cfg_single 3 = true
   /\ rev (s_log (phase_one cfg_single sched_single))
      = [OInit [0; 1; 2]; OReq 3 0; OReq 3 2; ODeliver 3 2].
 Proof. repeat split; vm_compute; reflexivity. Qed.
